@@ -20,6 +20,10 @@ Payloads == {"empty", "one_byte", "incompressible_4k", "repetitive_64k", "repeti
 SmallPayloads == {"empty", "one_byte", "incompressible_4k", "text_8k"}
 Codecs == {"string", "bytes", "bincode"}
 Batching == {0, 3}
+\* what the same compressor / decompressor / codec objects processed before the value under test (a
+\* subscriber keeps one decompressor for the life of its stream): the stages are functions, so the
+\* history must not matter
+Histories == {"fresh", "after_valid", "after_damaged", "after_truncated", "after_foreign"}
 
 \* abstract semantics: a payload is a token; every stage wraps / unwraps it
 Enc(c, v) == <<"enc", c, v>>
@@ -34,20 +38,24 @@ Back(c, w) == LET u == Unb(c.batch, Dcm(c.algo, w)) IN [i \in 1..Len(u) |-> Dec(
 Expected(c) == IF c.batch = 0 THEN <<c.payload>> ELSE [i \in 1..c.batch |-> c.payload]
 
 Lvl(kind, n) == [kind |-> kind, n |-> n]
-Configs ==
+Base ==
     {[algo |-> a, level |-> Lvl("preset_" \o p, 0), payload |-> pl, codec |-> c, batch |-> b] :
         a \in {x \in Algos : HasLevels(x)}, p \in Presets, pl \in Payloads, c \in Codecs, b \in Batching}
     \cup {[algo |-> a, level |-> Lvl("explicit", n), payload |-> pl, codec |-> "bytes", batch |-> b] :
         a \in {x \in Algos : HasLevels(x)}, n \in 0..22, pl \in SmallPayloads \cup {"repetitive_64k"}, b \in Batching}
     \cup {[algo |-> a, level |-> Lvl("default", 0), payload |-> pl, codec |-> c, batch |-> b] :
         a \in {"none", "lz4"}, pl \in Payloads, c \in Codecs, b \in Batching}
+WithHistory(c, h) == [algo |-> c.algo, level |-> c.level, payload |-> c.payload, codec |-> c.codec, batch |-> c.batch, history |-> h]
+Configs == {WithHistory(c, "fresh") : c \in Base}
+           \cup {WithHistory(c, h) : c \in {x \in Base : x.payload \in SmallPayloads /\ x.level.kind # "explicit"}, h \in Histories \ {"fresh"}}
 Cases == {c \in Configs : c.level.kind # "explicit" \/ c.level.n \in LevelsOf(c.algo)}
 
 VARIABLE case
 PInit == case \in Cases
 PNext == UNCHANGED case
 PSpec == PInit /\ [][PNext]_case
-\* C14 on the abstract pipeline: the wire composition is the identity
+\* C14 on the abstract pipeline: the wire composition is the identity (whatever the objects saw before:
+\* the stage functions take no history argument)
 Inv_Lossless == Back(case, Wire(case)) = Expected(case)
 \* a decompressor / decoder applied to something else reports an error
 Inv_Mismatch == \A a \in Algos \ {case.algo, "none"} : case.algo # "none" => Dcm(a, Cmp(case.algo, "x")) = "ERR"
